@@ -3,7 +3,8 @@
    call, the error item on the input stream (Collect / Transform), and what the implementation
    answered, projected on the observables of the property: outcome class, errors.As for the
    path-carrying wrapper (type, stream-wrapper path, node path, outermost?), errors.Is per
-   sentinel, errors.As per custom type, payload of a recovered panic, ExtractInterruptInfo.
+   sentinel, errors.As per custom type, payload of a recovered panic, ExtractInterruptInfo, and the
+   node path printed in the error's message (the public carrier of the path).
    The model gives the SET of legal answers (parallel failures: any one may be reported);
    the observation must be one of them.  Messages are never compared. *)
 From Eino Require Import Base.Util Model.Errors.
@@ -28,7 +29,8 @@ Definition proj_eqb (a b : proj) : bool :=
   && list_eqb Bool.eqb (p_is a) (p_is b)
   && list_eqb (opt_eqb N.eqb) (p_as a) (p_as b)
   && opt_eqb N.eqb (p_panic a) (p_panic b)
-  && Bool.eqb (p_interrupt a) (p_interrupt b).
+  && Bool.eqb (p_interrupt a) (p_interrupt b)
+  && list_eqb String.eqb (p_msg a) (p_msg b).
 
 Definition obs_of (a : answer) : option obs :=
   match a with
